@@ -14,7 +14,7 @@ def run(tier, seed):
     t0 = time.time()
     parts = {}
     for P, L, sizes, mr, depth in ([(2, 3, (1, 2, 3), 1, 10), (3, 3, (1, 2), 1, 9)] if tier == 'quick'
-                                   else [(2, 3, (1, 2, 3), 2, 13), (2, 4, (1, 2, 3), 2, 12), (3, 3, (1, 2), 2, 11)]):
+                                   else [(2, 3, (1, 2, 3), 2, 12), (3, 3, (1, 2), 2, 10)]):
         r = C16.defer_bfs(P, L, sizes, mr, depth, deadline=t0 + (60 if tier == 'quick' else 600))
         parts[f'defer queue P={P} L={L} sizes={sizes} restarts<={mr}'] = {
             'states': r.states, 'transitions': r.transitions, 'depth': r.depth_completed, 'caps_hit': r.caps_hit}
